@@ -13,7 +13,8 @@ Threads: only the log-collector thread exists; its protocol is C25. Hash seeds:
     construction of a warning, or that iterates a container holding warnings
     or a sequence accumulated in hash order (collected vector, string built with +=, pushes)
     that flows - inside the function - into the CONTENT of a single warning (constructor /
-    builder argument, field assignment)
+    builder argument, field assignment); or a helper that takes its next element in hash order and
+    returns the first hit (early `return value` in the loop) whose result a caller puts into a warning
  R3 (notes, never an alarm) every other order-sensitive site (sink is the IR, an analysis
     state, or the unsorted log messages) is listed with its classification
 """
@@ -389,6 +390,48 @@ def run(run):
                 extra = "; warnings are emitted (%s) in hash order - harmless for the set of warnings as long as a later dedup key is element specific, and their order is fixed by the final sort" % sorted(set(emit))
             run.holds("R1", key, "order-sensitive (%s) but no selection among warnings%s" % (detail, extra), site)
             run.note("R3 order-sensitive hash iteration (not an alarm): %s at %s: %s%s" % (root.split("::")[-1], site, detail, extra))
+
+    # ---- interprocedural step: a helper that returns WHICH element it found first, found in hash order
+    odr = {}
+    for crate, F, f, c, kind, rty, pm in sites:
+        cls, detail = classify(F, f, c, pm)
+        if cls != "sensitive" or not any(k in detail for k in ("terminal next", "terminal find", "terminal find_map", "terminal last", "terminal nth", "terminal first", "terminal position")):
+            continue
+        ret = F.tyi(f["ret"]) if isinstance(f.get("ret"), int) else str(f.get("ret") or "")
+        if ret in ("bool", "()", "") or emits_warnings(F, f, c, pm):
+            continue
+        # the selected element drives a loop with an early `return <value>`: the value returned depends on the visiting order
+        early = [x for lp in T.walk(f["body"]) if lp.get("k") == "Loop" for x in T.walk(lp) if x.get("k") == "Return" and x.get("e") is not None and any(y.get("k") in ("Var", "Upvar", "Field", "Call") for y in T.walk(x["e"]))]
+        in_loop_header = any(lp.get("k") == "Loop" and any(y is c for y in T.walk(lp)) for lp in T.walk(f["body"]))
+        if early and in_loop_header:
+            odr[f["path"]] = (F, f, c, detail)
+    for path, (F0, f0, c0, detail) in sorted(odr.items()):
+        callers = 0
+        for crate, F in facts.items():
+            for g in F.fns:
+                if "expn" in g and "Derive" in g["expn"]:
+                    continue
+                for x in T.walk_fn(F, g):
+                    if not (x.get("k") == "Call" and (x.get("f") == path or x.get("r") == path)):
+                        continue
+                    callers += 1
+                    seeds = set()
+                    for n in T.walk_fn(F, g):
+                        if n.get("k") == "LetStmt" and "i" in n and any(y is x for y in T.walk(n["i"])):
+                            seeds |= {i for i, _, _ in T.pat_bindings(n["p"])}
+                        if n.get("k") == "Let" and any(y is x for y in T.walk(n["e"])):
+                            seeds |= {i for i, _, _ in T.pat_bindings(n["p"])}
+                        if n.get("k") == "Match" and any(y is x for y in T.walk(n["e"])):
+                            for a in n["arms"]:
+                                seeds |= {i for i, _, _ in T.pat_bindings(a["p"])}
+                    hits = flows_into_a_warning(F, g, seeds) if seeds else []
+                    key = "%s|result-of|%s" % (g.get("root") or g["path"], f0["name"])
+                    if hits:
+                        run.violated("R1", key, "%s picks its next element in hash order (%s at %s) and returns the FIRST hit it meets; its result becomes part of a warning here (%s): which call site the warning names depends on the per-process hash seed" % (f0["name"], detail, F0.loc(c0), hits[0][1]), F.loc(x))
+                    else:
+                        run.holds("R1", key, "result of the order-dependent helper does not reach the content of a warning", F.loc(x))
+        if not callers:
+            run.note("R3 helper with an order-dependent result and no caller: %s" % path)
 
     def r2():
         C = facts["cwe_checker"]
